@@ -66,6 +66,9 @@ type RefClient struct {
 	// Events delivered, per rid, in order: "event" names with seq if any
 	EventLog []ClientEvent
 	Closed   bool
+	// ByGet lists the rids whose data the client last received through a get
+	// response (frame index), i.e. without any subscription.
+	ByGet map[string]int
 	// EverRef lists the rids that some stored resource ever referenced (non-soft).
 	EverRef map[string]bool
 }
@@ -190,6 +193,12 @@ func (r *CRes) refs() []string {
 }
 
 func (c *RefClient) addResources(rs *resourceSet) {
+	for rid := range rs.Models {
+		delete(c.ByGet, rid)
+	}
+	for rid := range rs.Collections {
+		delete(c.ByGet, rid)
+	}
 	for rid, m := range rs.Models {
 		if _, ok := c.Store[rid]; ok {
 			c.Resends = append(c.Resends, rid)
@@ -386,6 +395,15 @@ func (c *RefClient) response(id int, result json.RawMessage, isErr bool, code st
 		var rs resourceSet
 		json.Unmarshal(result, &rs)
 		c.addResources(&rs)
+		if c.ByGet == nil {
+			c.ByGet = map[string]int{}
+		}
+		for rid := range rs.Models {
+			c.ByGet[rid] = c.nframes
+		}
+		for rid := range rs.Collections {
+			c.ByGet[rid] = c.nframes
+		}
 		if !c.Holds(p.RID) {
 			c.issue("C02", "get response for %s does not contain the resource", p.RID)
 		}
@@ -455,7 +473,11 @@ func (c *RefClient) event(name string, data json.RawMessage) {
 		return
 	}
 	if res == nil {
-		c.issue("C02", "%s event for %s which the client does not hold", ev, rid)
+		if _, ok := c.ByGet[rid]; ok {
+			c.issue("C02", "%s event for %s, whose data the client only received through a get response (no subscription)", ev, rid)
+		} else {
+			c.issue("C02", "%s event for %s which the client does not hold", ev, rid)
+		}
 		return
 	}
 	if res.Deleted {
